@@ -794,7 +794,11 @@ def _codec_verdict(where, items, fty):
                                               else "written but never read back")
         if k == "skip_serializing_if":
             pred = (v or "").strip().strip('"')
-            absent_ok = (fty or "").startswith(("std::option::Option<", "core::option::Option<")) or "default" in keys
+            # what a missing field reads back as: None for an Option without `default`, Default::default() with a bare
+            # `default`; a `default = "function"` reads back as whatever that function says - not the value that was skipped
+            is_opt = (fty or "").startswith(("std::option::Option<", "core::option::Option<"))
+            bare_default = "default" in keys and keys["default"] is None
+            absent_ok = bare_default or (is_opt and "default" not in keys)
             if not (pred.endswith(_EMPTY_PREDICATES) and absent_ok):
                 return ("`skip_serializing_if = %s`: not one of the recognised is-empty predicates on a field whose absence reads "
                         "back as that empty value" % v)
